@@ -167,6 +167,7 @@ func checkC09(c *Ctx) {
 
 	// ---- (3)
 	checkOverwriteSequence(c)
+	checkRollbackRange(c)
 	// ---- (4) the range scans of a rollback cannot end early unnoticed
 	c.rule("ERR-E3-rollback", "the scans that delete the erased versions consult the iterator's error before reporting success", 2)
 	{
@@ -274,11 +275,18 @@ func checkRollbackFrame(c *Ctx) {
 			}
 		}
 	})
+	// fields reset through a helper that re-initialises them on every path count as well
+	for _, w := range W {
+		if w.field != nil && len(l.resetters(w.field)) > 0 {
+			fields[w.field] = true
+		}
+	}
 	for f := range fields {
 		f := f
-		gen := func(in ssa.Instruction) bool { return isStoreToField(in, f) }
+		gen := l.storeOrReset(f, false)
+		genC := l.storeOrReset(f, true)
 		q := mustState(Rb, false, gen, nil)
-		qc := mustStateE(Rb, false, gen, nil, func(from *ssa.BasicBlock, si int) bool {
+		qc := mustStateE(Rb, false, genC, nil, func(from *ssa.BasicBlock, si int) bool {
 			iff := ifOf(from)
 			if iff == nil {
 				return false
@@ -352,7 +360,77 @@ func checkRollbackFrame(c *Ctx) {
 			c.bad("EFFECT-rollback-frame", key, pos, "field (or its contents) is written by Set/Remove but not reset on every path of Rollback(): the discarded changes leak into the next working state")
 		}
 	}
+	checkOverlayFollowsTree(c)
+}
 
+// checkOverlayFollowsTree: the overlay of uncommitted index changes describes
+// the working tree.  Whoever replaces the working tree by a tree that is not
+// derived from it (a version loaded from storage, the last saved snapshot)
+// discards the uncommitted changes and must discard the overlay with them —
+// otherwise Get / Iterate (overlay first) answer from writes that Has /
+// GetWithIndex / the tree walk no longer see.
+func checkOverlayFollowsTree(c *Ctx) {
+	l := c.L
+	const R = "EFFECT-rollback-frame"
+	fEmb := l.Field("", "MutableTree", "ImmutableTree")
+	fAdd := l.Field("", "MutableTree", "unsavedFastNodeAdditions")
+	fRem := l.Field("", "MutableTree", "unsavedFastNodeRemovals")
+	if fEmb == nil || fAdd == nil || fRem == nil {
+		c.anchorMissing(R, "MutableTree.ImmutableTree / overlay fields")
+		return
+	}
+	n := 0
+	for _, fn := range l.SrcFuncs {
+		if l.pkgPathOf(fn) != l.ModPath || fn.Signature.Recv() == nil {
+			continue
+		}
+		if rn := derefNamed(fn.Signature.Recv().Type()); rn == nil || rn.Obj().Name() != "MutableTree" {
+			continue
+		}
+		var foreign []*ssa.Store
+		for _, st := range storesToField(fn, fEmb) {
+			r := roleOf(l, st.Val, "", 0)
+			if isNilConst(stripTrivial(st.Val)) {
+				continue // Close(): the tree is unusable afterwards
+			}
+			// tree.clone() of the receiver's own working tree keeps the uncommitted changes: the overlay stays valid
+			if strings.HasPrefix(r, "clone(recv.ImmutableTree") || r == "clone(recv)" {
+				continue
+			}
+			foreign = append(foreign, st)
+		}
+		if len(foreign) == 0 {
+			continue
+		}
+		n++
+		for _, f := range []*types.Var{fAdd, fRem} {
+			f := f
+			q := mustStateE(fn, false, l.storeOrReset(f, true), nil, fastDisabledEdge)
+			ok := true
+			var bad *ssa.Return
+			for _, st := range foreign {
+				searchFrom([]point{after(st)}, func(x ssa.Instruction) bool {
+					if r, isRet := x.(*ssa.Return); isRet {
+						ei := errResultIndex(fn.Signature)
+						if (ei < 0 || errNilness(retVal(r, ei), r.Block(), 0) <= 0) && !q(r) && !isRecoverReturn(r) {
+							ok, bad = false, r
+						}
+						return true
+					}
+					return false
+				})
+			}
+			pos := l.ipos(foreign[0])
+			if bad != nil {
+				pos = l.ipos(bad)
+			}
+			c.decide(R, l.fname(fn)+" replaces the working tree ⇒ resets "+f.Name(), pos, ok, "every success return after the replacement has reset the overlay (or the index is disabled)",
+				"the working tree is replaced by another tree but the overlay of uncommitted index changes is kept: Get and Iterate on the working state return writes that were discarded with the old working tree, and the next commit persists them into the index")
+		}
+	}
+	if n < 2 {
+		c.anchorMissing(R, "fewer than 2 functions replace the working tree (LoadVersion, Rollback expected)")
+	}
 }
 
 // checkCacheRefresh: SaveNode replaces the cache entry of its node key.
